@@ -379,7 +379,9 @@ func (c *Conn) reader(ctx context.Context) (_ MessageType, _ io.Reader, err erro
 	}
 	defer c.readUnlock()
 
-	if !c.msgReader.fin {
+	// The final frame of the previous message having arrived is not enough:
+	// what is left of its payload would be parsed as frames.
+	if !c.msgReader.fin || c.msgReader.payloadLength > 0 {
 		return 0, nil, errors.New("previous message not read to completion")
 	}
 
